@@ -8,7 +8,7 @@ checks = sys.argv[2:] or [sid[:3]]
 d = os.path.join(V, "seeded", sid)
 wt = "/tmp/confirm-%s" % sid
 def sh(c, **kw):
-    r = subprocess.run(c, shell=True, stdout=subprocess.PIPE, stderr=subprocess.STDOUT, text=True, **kw)
+    r = subprocess.run(c, shell=True, stdout=subprocess.PIPE, stderr=subprocess.STDOUT, text=True, errors="replace", **kw)
     return r.returncode, r.stdout
 sh("git -C /repo worktree remove --force %s" % wt)
 rc, o = sh("git -C /repo worktree add -q --detach %s HEAD" % wt)
